@@ -746,9 +746,9 @@ def arakawa_mask_table(ctx: Context) -> dict:
         what = None
         if data is not None and flow.canon(data) == ('param', cf.params[0]):
             what = 'centres'
-        elif isinstance(data, ast.Call) and callee(ctx, cf, data) == 'emsarray.masking.smear_mask' and len(data.args) == 2 \
-                and flow.canon(data.args[0]) == ('param', cf.params[0]):
-            axes = flow.resolve(data.args[1])
+        elif isinstance(data, ast.Call) and callee(ctx, cf, data) == 'emsarray.masking.smear_mask' and arg_or_kw(data, 0, 'arr') is not None \
+                and arg_or_kw(data, 1, 'pad_axes') is not None and flow.canon(arg_or_kw(data, 0, 'arr')) == ('param', cf.params[0]):
+            axes = flow.resolve(arg_or_kw(data, 1, 'pad_axes'))
             what = [const_value(e, None) for e in axes.elts] if isinstance(axes, (ast.List, ast.Tuple)) else None
         out[name] = (what, dims_text)
     return out
